@@ -524,3 +524,226 @@ class FrameExecutor(AlgoExecutor):
             self._undecided("temp[%r] value model" % key)
         st.ghost[k] = v
         return v
+
+
+# =====================================================================================================
+# Mutable string-keyed dicts of floats (temp['weights'], tgt, limit dicts): a heap object with
+#   dct#has : Ref -> (Str -> Bool)      dct#val / dct#valnan : Ref -> (Str -> Real / Bool)
+# and, for iteration, a positional enumeration of the keys:  key_at(d, j)  with  0 <= j < len(d),
+# pos(d, key_at(d, j)) == j   (a bijection between positions and members; A-PANDAS for Series).
+# =====================================================================================================
+dkey_at = z3.Function("key_at", dsl.Ref, I, S)
+dkey_pos = z3.Function("key_pos", dsl.Ref, S, I)
+dlen_f = z3.Function("dict_len", dsl.Ref, I)
+
+
+class DictObjV(object):
+    def __init__(self, ref, desc=""):
+        self.ref, self.desc = ref, desc
+
+
+class DictKeysV(object):
+    """iteration view over a dict / Series: keys (kind='keys') or (key, value) pairs (kind='items')"""
+
+    def __init__(self, d, kind, snap=None):
+        self.d, self.kind, self.snap = d, kind, snap
+
+
+from .heap import EXTRA_KEYS as _XK
+
+_XK["dct#has"] = z3.ArraySort(S, B)
+_XK["dct#val"] = z3.ArraySort(S, R)
+_XK["dct#valnan"] = z3.ArraySort(S, B)
+
+
+def _dmaps(heap):
+    return heap.ensure("dct#has"), heap.ensure("dct#val"), heap.ensure("dct#valnan")
+
+
+def dict_has(heap, d, k):
+    has, _, _ = _dmaps(heap)
+    return z3.Select(has.select(d), k)
+
+
+def dict_get(heap, d, k):
+    _, val, vn = _dmaps(heap)
+    return Num(z3.Select(val.select(d), k), z3.Select(vn.select(d), k), False)
+
+
+def dict_set(heap, d, k, v):
+    has, val, vn = _dmaps(heap)
+    v = Num.lift(v)
+    heap.maps["dct#has"] = has.store(d, z3.Store(has.select(d), k, z3.BoolVal(True)))
+    heap.maps["dct#val"] = val.store(d, z3.Store(val.select(d), k, v.real()))
+    heap.maps["dct#valnan"] = vn.store(d, z3.Store(vn.select(d), k, _zbb(v.nan)))
+
+
+def dict_del(heap, d, k):
+    has, _, _ = _dmaps(heap)
+    heap.maps["dct#has"] = has.store(d, z3.Store(has.select(d), k, z3.BoolVal(False)))
+
+
+def dict_new(heap, name="dict"):
+    d = dsl.fresh_ref(name)
+    has, val, vn = _dmaps(heap)
+    heap.maps["dct#has"] = has.store(d, z3.K(S, z3.BoolVal(False)))
+    return d
+
+
+def dict_enum_facts(heap, d, j):
+    """positional enumeration at index j of the keys of d *as of this heap*"""
+    j = Num.lift(j)
+    k = dkey_at(d, j.r)
+    return Implies(And(j.r >= 0, j.r < dlen_f(d)), And(dict_has(heap, d, k), dkey_pos(d, k) == j.r))
+
+
+def _dict_methods():
+    return ("items", "keys", "values", "copy", "get")
+
+
+_old_load_attr = FrameExecutor.ext_load_attr
+
+
+def _d_load_attr(self, st, obj, attr):
+    from .heap import Opt as _Opt
+
+    if isinstance(obj, _Opt) and isinstance(obj.val, tuple) and obj.val[0] == "dictref":
+        # attribute / method on an optional dict: it must not be None
+        st.oblige("%s/not-none" % self.cur_func[-1], Not(obj.isnone), kind="side")
+        st.assume(_zbb(Not(obj.isnone)))
+        return _d_load_attr(self, st, DictObjV(obj.val[1], "optional dict"), attr)
+    if isinstance(obj, DictObjV) and attr in _dict_methods():
+        return [(st, BoundFn("dictm", attr, recv=obj))]
+    return _old_load_attr(self, st, obj, attr)
+
+
+FrameExecutor.ext_load_attr = _d_load_attr
+
+_old_call_value = FrameExecutor.ext_call_value
+
+
+def _d_call_value(self, st, f, pos, kw):
+    if isinstance(f, BoundFn) and f.kind == "dictm":
+        d = f.recv
+        if f.name in ("items", "keys"):
+            return [(st, DictKeysV(d, f.name, st.heap.copy()))]
+        if f.name == "copy":
+            n = dsl.fresh_ref("dictcopy")
+            has, val, vn = _dmaps(st.heap)
+            st.heap.maps["dct#has"] = has.store(n, has.select(d.ref))
+            st.heap.maps["dct#val"] = val.store(n, val.select(d.ref))
+            st.heap.maps["dct#valnan"] = vn.store(n, vn.select(d.ref))
+            return [(st, DictObjV(n, d.desc + ".copy()"))]
+    return _old_call_value(self, st, f, pos, kw)
+
+
+FrameExecutor.ext_call_value = _d_call_value
+
+_old_load_sub = FrameExecutor.ext_load_subscript
+
+
+def _d_load_sub(self, st, base, i):
+    from .heap import Opt as _Opt
+
+    if isinstance(base, _Opt) and isinstance(base.val, tuple) and base.val[0] == "dictref":
+        st.oblige("%s/not-none" % self.cur_func[-1], Not(base.isnone), kind="side")
+        st.assume(_zbb(Not(base.isnone)))
+        base = DictObjV(base.val[1], "optional dict")
+    if isinstance(base, DictObjV) and isinstance(i, StrV):
+        out = []
+        for (s, b) in self.branch(st, dict_has(st.heap, base.ref, i.term)):
+            out.append((s, dict_get(s.heap, base.ref, i.term)) if b else (s, _Raised("KeyError")))
+        return out
+    return _old_load_sub(self, st, base, i)
+
+
+FrameExecutor.ext_load_subscript = _d_load_sub
+
+_old_store_sub = FrameExecutor.ext_store_subscript
+
+
+def _d_store_sub(self, st, base, i, v):
+    if isinstance(base, DictObjV) and isinstance(i, StrV):
+        dict_set(st.heap, base.ref, i.term, self._num(st, v))
+        return [st]
+    return _old_store_sub(self, st, base, i, v)
+
+
+FrameExecutor.ext_store_subscript = _d_store_sub
+
+_old_in = FrameExecutor.ext_in
+
+
+def _d_in(self, a, b, st):
+    if isinstance(b, DictObjV) and isinstance(a, StrV):
+        return dict_has(st.heap, b.ref, a.term)
+    from .heap import DictV as _DictV
+
+    return _old_in(self, a, b, st)
+
+
+FrameExecutor.ext_in = _d_in
+
+_old_temp_value = FrameExecutor.temp_value
+
+
+def _d_temp_value(self, st, t, key):
+    k = "temp:%s:%s" % (t.which, key)
+    if k not in st.ghost and key in ("weights",):
+        tokf = z3.Function("tok_temp_" + key, dsl.Ref, dsl.Ref)
+        v = DictObjV(tokf(t.owner.term), "temp['%s']@entry" % key)
+        st.ghost[k] = v
+        return v
+    if k not in st.ghost and key in ("cash", "notional_value"):
+        f = z3.Function("temp_" + key, dsl.Ref, R)
+        v = Num(f(t.owner.term), False, False)
+        st.ghost[k] = v
+        return v
+    return _old_temp_value(self, st, t, key)
+
+
+FrameExecutor.temp_value = _d_temp_value
+
+
+def _d_expr_dict(self, e, st):
+    if not e.keys:
+        return [(st, DictObjV(dict_new(st.heap), "{}"))]
+    self._undecided("dict literal")
+
+
+FrameExecutor.ext_dict_literal = _d_expr_dict
+
+
+def _iter_adapter(self, it, st):
+    """iteration sources beyond plain lists: dict keys/items views and a node's children dict (by name)"""
+    from .heap import DictV as _DictV
+
+    if isinstance(it, DictKeysV) or isinstance(it, DictObjV):
+        d = it.d if isinstance(it, DictKeysV) else it
+        kind = it.kind if isinstance(it, DictKeysV) else "keys"
+        n = Num(dlen_f(d.ref), False, True)
+
+        def elem(s, i, d=d, kind=kind):
+            k = dkey_at(d.ref, Num.lift(i).r)
+            s.assume(_zbb(dict_enum_facts(s.heap, d.ref, i)))
+            if kind == "items":
+                return TupleV([StrV(k), dict_get(s.heap, d.ref, k)])
+            return StrV(k)
+
+        return n, elem, None
+    if isinstance(it, _DictV) and it.field == "children":
+        owner = it.owner
+        n = st.heap.list_len(owner, "_childrenv")
+
+        def elem(s, i, owner=owner):
+            c = s.heap.list_at(owner, "_childrenv", i)
+            nm = s.heap.get(c, "name")
+            # T: the dict of children and the list of children agree
+            s.assume(And(s.heap.dict_has(owner, "children", nm), s.heap.dict_at(owner, "children", nm).term == c.term))
+            return nm
+
+        return n, elem, owner
+    return None
+
+
+FrameExecutor.iter_adapter = _iter_adapter
